@@ -92,7 +92,7 @@ class Stream(Harness):
     prop = "C05"
     alphabet = "ascii"
     functions = FUNCS
-    must_reach = ("module", "LexerError")
+    must_reach = ("module", "LexerError", "ParseError")
     timeout = 170
 
     @property
@@ -183,6 +183,13 @@ class Unterminated(Harness):
             if lo <= b:
                 rs.append((lo, b))
         t = ctx.fresh_str(self.n, "t", tuple(rs))
+        if self.dialect == "Omni":
+            # the default loader first removes 'dash + LF/CR/FF + white space' from the text (documented): a tail with
+            # such a pair is a different text after that step (x = 1 /**-<FF>/ becomes the closed comment /**/)
+            from ..core import ch_in, chars_to_ranges
+            le = chars_to_ranges("\n\r\f")
+            for x, y in zip(t.cs, t.cs[1:]):
+                ctx.assume(znot(zand([B(SymStr((x,)) == "-"), ch_in(y, le)])))
         if self.open == "comment":
             cs = t.cs
             if cs:
@@ -217,7 +224,7 @@ def obligations(tier):
             else:
                 obs += [Stream(dialect=d, k=4, prefix=pre, split=sp, shard_bits=3) for sp in splits(1)]
         for o in OPEN:
-            for n in range(0, (2 if quick else 4) + 1):
+            for n in range(0, (2 if quick else 3) + 1):
                 obs.append(Unterminated(dialect=d, open=o, n=n, shard_bits=0 if n < 3 else 4))
     return obs
 
